@@ -9,7 +9,7 @@
 From Coq Require Import ZArith QArith Qabs Qreals Reals List Bool.
 Import ListNotations.
 From PV Require Import C12.Spec Generated.Mangle C12.RBase Generated.MangleR C12.Model C12.Arccos C12.Proofs C12.SetUse
-  C12.Storage C12.Bridge C12.Region C12.RaDec.
+  C12.Storage C12.Bridge C12.Region C12.RaDec C12.Loops C12.Tolerance C12.Ties.
 Open Scope Z_scope.
 
 (* ---- the code's formula is the property's algebraic test (over the reals) ---- *)
@@ -305,6 +305,110 @@ Theorem C12_balkans_slice_wf : forall bcaps blist,
 Proof. exact balkans_slice_wf. Qed.
 Print Assumptions C12_balkans_slice_wf.
 
+(* ---- round 5: the whole function bodies, compiled statement by statement from the source, are the model ---- *)
+
+(* set_use_caps: initialisation, t2, the selection loop over index_list, the allow_doubles guard and the double loop
+   (bounds range(ncaps) / range(i+1, ncaps), both is_cap_used guards, the nested tolerance tests in their order,
+   the decrement) -- with d2 i j = |x_i - x_j|^2 and cm i read from the polygon's caps *)
+Theorem C12_set_use_caps_body_is_model : forall P idx o, wf_poly P ->
+  gen_set_use_caps_body (Z.of_nat (pn P)) (d2_of (pcaps P)) (cm_of (pcaps P)) idx
+                        (o_add o) (o_tol o) (o_allow_doubles o) (o_allow_neg_doubles o) (puse P)
+  = set_use_caps P idx o.
+Proof. exact set_use_caps_body_is_model. Qed.
+Print Assumptions C12_set_use_caps_body_is_model.
+
+(* is_in_polygon for one point: usencaps, the start value, range(usencaps), the use-mask guard, the accumulation *)
+Theorem C12_is_in_polygon_body_is_model : forall P ncaps p,
+  gen_is_in_polygon_body (Z.of_nat (pn P)) (puse P) ncaps (incap_of (pcaps P) p) = in_polygon P ncaps p.
+Proof. exact is_in_polygon_body_is_model. Qed.
+Print Assumptions C12_is_in_polygon_body_is_model.
+
+(* is_in_window for one point: -1 start, curr_polygon = 0, `while curr_polygon < npoly`, the still-unassigned guard,
+   the assignment, the increment, (in_polygon >= 0, in_polygon); the while loop terminates within len(polygons)
+   passes (any larger fuel gives the same answer) *)
+Theorem C12_is_in_window_body_is_model : forall Ps ncaps pts i p fuel,
+  (length Ps <= fuel)%nat -> nth_error pts i = Some p ->
+  nth_error (in_window Ps ncaps pts) i
+  = Some (gen_is_in_window_body fuel (Z.of_nat (length Ps)) (inpoly_of Ps ncaps p)).
+Proof. exact is_in_window_body_is_model. Qed.
+Print Assumptions C12_is_in_window_body_is_model.
+
+(* ---- round 5: the duplicate tolerance of set_use_caps is absolute ---- *)
+
+(* a selected cap that differs from every earlier cap by at least tol (axis: Euclidean distance; or cm: difference and,
+   unless allow_neg_doubles, sum) keeps its bit -- no matter how small the difference is relative to the values *)
+Theorem C12_distinct_cap_kept : forall P idx o j cj,
+  o_allow_doubles o = false -> (j < pn P)%nat -> nth_error (pcaps P) j = Some cj ->
+  selected (if o_add o then puse P else 0) idx j = true ->
+  (forall i ci, (i < j)%nat -> nth_error (pcaps P) i = Some ci -> far_apart (o_tol o) (o_allow_neg_doubles o) ci cj) ->
+  Z.testbit (set_use_caps P idx o) (Z.of_nat j) = true.
+Proof. exact distinct_cap_kept. Qed.
+Print Assumptions C12_distinct_cap_kept.
+
+Theorem C12_far_apart_iff_not_double : forall tol an a b, far_apart tol an a b <-> spec_same_cap tol an a b = false.
+Proof. exact far_apart_not_same. Qed.
+Print Assumptions C12_far_apart_iff_not_double.
+
+(* a cap within tol of an earlier cap whose bit stays set loses its bit *)
+Theorem C12_duplicate_cap_dropped : forall P idx o i j ci cj,
+  o_allow_doubles o = false -> (i < j)%nat -> (j < pn P)%nat ->
+  nth_error (pcaps P) i = Some ci -> nth_error (pcaps P) j = Some cj ->
+  spec_same_cap (o_tol o) (o_allow_neg_doubles o) ci cj = true ->
+  Z.testbit (set_use_caps P idx o) (Z.of_nat i) = true ->
+  Z.testbit (set_use_caps P idx o) (Z.of_nat j) = false.
+Proof. exact duplicate_cap_dropped. Qed.
+Print Assumptions C12_duplicate_cap_dropped.
+
+(* and a selected bit is lost ONLY to an earlier cap within tol that stays in use *)
+Theorem C12_dropped_only_for_duplicate : forall P idx o j,
+  o_allow_doubles o = false -> (j < pn P)%nat ->
+  selected (if o_add o then puse P else 0) idx j = true ->
+  Z.testbit (set_use_caps P idx o) (Z.of_nat j) = false ->
+  exists i ci cj, (i < j)%nat /\ nth_error (pcaps P) i = Some ci /\ nth_error (pcaps P) j = Some cj /\
+                  Z.testbit (set_use_caps P idx o) (Z.of_nat i) = true /\
+                  spec_same_cap (o_tol o) (o_allow_neg_doubles o) ci cj = true.
+Proof. exact dropped_only_for_duplicate. Qed.
+Print Assumptions C12_dropped_only_for_duplicate.
+
+Theorem C12_same_cap_sym : forall tol an a b, spec_same_cap tol an a b = spec_same_cap tol an b a.
+Proof. exact same_cap_sym. Qed.
+Print Assumptions C12_same_cap_sym.
+
+(* ---- round 5: boundary values of cm and dot products outside [-1, 1], both signs (over R) ---- *)
+
+(* whatever real number the float dot product is (rounding may leave [-1, 1] on either side) and whatever the sign of cm:
+   the code's answer is the algebraic test on the clipped dot product *)
+Theorem C12_is_in_cap_any_dot : forall cm d : R, (-2 <= cm <= 2)%R ->
+  (gen_is_in_cap cm d <-> if Rlt_dec cm 0 then (- cm <= 1 - clip d)%R else (1 - clip d <= cm)%R).
+Proof. exact is_in_cap_any_dot. Qed.
+Print Assumptions C12_is_in_cap_any_dot.
+
+(* cm = 0 (+0.0 or -0.0): the cap is its centre;  cm = 2: the whole sphere;  cm = -2: only the antipode *)
+Theorem C12_zero_cap_only_centre : forall d : R, gen_is_in_cap 0 d <-> (1 <= d)%R.
+Proof. exact zero_cap_only_centre. Qed.
+Print Assumptions C12_zero_cap_only_centre.
+
+Theorem C12_full_cap_contains_all : forall d : R, gen_is_in_cap 2 d.
+Proof. exact full_cap_contains_all. Qed.
+Print Assumptions C12_full_cap_contains_all.
+
+Theorem C12_neg_full_cap_only_antipode : forall d : R, gen_is_in_cap (-2) d <-> (d <= -1)%R.
+Proof. exact neg_full_cap_only_antipode. Qed.
+Print Assumptions C12_neg_full_cap_only_antipode.
+
+(* the antipode of the centre is in every cap with cm < 0 and in no cap with 0 <= cm < 2; the centre is in no cap with cm < 0 *)
+Theorem C12_antipode_in_neg_cap : forall cm d : R, (d <= -1)%R -> (-2 <= cm < 0)%R -> gen_is_in_cap cm d.
+Proof. exact antipode_in_neg_cap. Qed.
+Print Assumptions C12_antipode_in_neg_cap.
+
+Theorem C12_antipode_in_pos_cap : forall cm d : R, (d <= -1)%R -> (0 <= cm <= 2)%R -> (gen_is_in_cap cm d <-> cm = 2%R).
+Proof. exact antipode_in_pos_cap. Qed.
+Print Assumptions C12_antipode_in_pos_cap.
+
+Theorem C12_centre_not_in_neg_cap : forall cm d : R, (1 <= d)%R -> (-2 <= cm < 0)%R -> ~ gen_is_in_cap cm d.
+Proof. exact centre_not_in_neg_cap. Qed.
+Print Assumptions C12_centre_not_in_neg_cap.
+
 (* ---- non-vacuity witnesses ---- *)
 
 Definition ex_cap_z : cap := mkcap (0, 0, 1)%Q (1 # 2)%Q.           (* 60 degrees around the pole *)
@@ -333,3 +437,33 @@ Example ex_balkans :
   map pn (balkans_slice [ex_cap_z; ex_cap_x; ex_cap_z] [(0, 1); (1, 2)]%nat) = [1; 2]%nat
   /\ map puse (balkans_slice [ex_cap_z; ex_cap_x; ex_cap_z] [(0, 1); (1, 2)]%nat) = [1; 3].
 Proof. exact (conj (eq_refl _) (eq_refl _)). Qed.
+
+(* round 5 witnesses.  Two caps on the axis (3/5, 0, 4/5) whose cm differ by 2e-6 (relative 4e-6: numpy.isclose
+   with its default rtol would call them equal) are distinct at tol = 1e-10: both keep their bits *)
+Definition ex_ax : vec := (3 # 5, 0, 4 # 5)%Q.
+Example ex_tolerance_is_absolute :
+  set_use_caps (mkpoly 3 0 [mkcap ex_ax (1 # 2); mkcap ex_ax ((1 # 2) - (2 # 1000000)); ex_cap_x]%Q) [0; 1; 2] default_opts = 7.
+Proof. exact (eq_refl _). Qed.
+(* a difference of 1e-11 is below tol: the later cap is dropped *)
+Example ex_tolerance_within :
+  set_use_caps (mkpoly 3 0 [mkcap ex_ax (1 # 2); mkcap ex_ax ((1 # 2) + (1 # 100000000000)); ex_cap_x]%Q) [0; 1; 2] default_opts = 5.
+Proof. exact (eq_refl _). Qed.
+(* doubles are not transitive: cm, cm + 0.6 tol, cm + 1.2 tol -- cap 1 goes (double of 0), cap 2 stays (cap 1 is no longer
+   in use and cap 0 is 1.2 tol away) *)
+Example ex_tolerance_chain :
+  set_use_caps (mkpoly 3 0 [mkcap ex_ax (1 # 2); mkcap ex_ax ((1 # 2) + (6 # 100000000000)); mkcap ex_ax ((1 # 2) + (12 # 100000000000))]%Q)
+               [0; 1; 2] default_opts = 5.
+Proof. exact (eq_refl _). Qed.
+Example ex_far_apart : far_apart (o_tol default_opts) false (mkcap ex_ax (1 # 2)) (mkcap ex_ax ((1 # 2) - (2 # 1000000)))%Q.
+Proof. right. split; [|left]; apply Qle_bool_iff; exact (eq_refl true). Qed.
+(* the compiled bodies compute *)
+Example ex_set_use_caps_body :
+  gen_set_use_caps_body 3 (d2_of [ex_cap_z; ex_cap_x; ex_cap_z]) (cm_of [ex_cap_z; ex_cap_x; ex_cap_z]) [2; 0]
+                        false (o_tol default_opts) false false 0 = 1.
+Proof. exact (eq_refl _). Qed.
+Example ex_is_in_window_body :
+  gen_is_in_window_body 3 3 (inpoly_of [mkpoly 1 1 [ex_cap_x]; ex_poly; mkpoly 0 0 []] 0 (1, 0, 0)%Q) = (true, 2).
+Proof. exact (eq_refl _). Qed.
+Example ex_is_in_polygon_body :
+  gen_is_in_polygon_body 2 3 0 (incap_of [ex_cap_z; ex_cap_x] (1, 0, 0)%Q) = false.
+Proof. exact (eq_refl _). Qed.
